@@ -182,6 +182,11 @@ def check_one(r, val):
         return obl, f"{what}: the library's matrix has shape {heff.shape}, expected {(d, d)}"
     m = t.reshape(d, d)
     err = float(np.max(np.abs(m - heff))) / max(1.0, float(np.max(np.abs(m)))) if d else 0.0
+    # relative to the scale of the model value (Hamiltonians given in small units: c05.gen_scaled_cases); floor: the product of
+    # the largest entries of the operator tensors times 1e-3 (a value that vanishes by cancellation is not judged against itself)
+    if d and float(np.max(np.abs(m))) > 0:
+        floor = 1e-3 * float(np.prod([max(float(np.max(np.abs(t))), 1e-300) for t in r["otens"]]))
+        err = max(err, float(np.max(np.abs(m - heff))) / max(float(np.max(np.abs(m))), floor))
     if not err <= TOL:
         return obl, (f"{what}: H_eff handed to time_evolve differs from the value of the model diagram "
                      f"(E^dagger H E from fresh blocks) by {err:.3e} relative")
